@@ -3,10 +3,12 @@ import math
 
 from harness import dtwgen
 
-COQ_FILES = ["theories/Parallel.v", "gen/Gen_omp.v", "gen/Gen_ompidx.v", "theories/ParallelTie.v", "props/C07.v"]
+COQ_FILES = ["theories/Parallel.v", "gen/Gen_omp.v", "gen/Gen_ompidx.v", "theories/ParallelTie.v", "gen/Gen_creent.v",
+             "theories/CReent.v", "props/C07.v"]
 THEOREMS = [("DVProps.C07", "C07_slots_are_0_to_len"), ("DVProps.C07", "C07_schedule_independent"),
             ("DVProps.C07", "C07_private_complete"), ("DVProps.C07", "C07_only_output_is_stored"),
-            ("DVProps.C07", "C07_six_loops"), ("DVProps.C07", "C07_index_plan_is_the_code")]
+            ("DVProps.C07", "C07_six_loops"), ("DVProps.C07", "C07_index_plan_is_the_code"),
+            ("DVProps.C07", "C07_kernels_leave_shared_settings_untouched")]
 TRUSTED_BASE = [
     "Coq 8.16.1 kernel; vm_compute for the finite private-clause table",
     "tools/translate_c.py (lexical extraction of the omp pragmas, private lists and assigned variables of "
